@@ -152,6 +152,54 @@ def lattice_tree(rng, n, shape):
             "r": [(i + 1) / 8 for i in range(n)], "elen": elen}
 
 
+def far_twig_tree(rng, e, f, n, shape):
+    """a tree whose branching part hangs at the end of a long winding fibre: the path length from the root to it is about 2^e length units
+    u = 2^-f (a projection axon, coordinates in nm), every coordinate and every edge length is a multiple of u below 2^24 u (exact in
+    float32, axis-aligned edges: lengths, their sums and the comparison with a threshold at a half unit are exact); a few twigs sit at the
+    root as well → (tree, K = the node the branching part hangs on)"""
+    u = 2.0 ** -f
+    base = lattice_tree(rng, n, shape)
+    m = rng.choice([1, 1, 3, 5])
+    K = max(2, 2 ** (e - 22))
+    S = 2 ** e // K
+    pos = [[rng.choice([0, 0, 1, -1]) * 2 ** rng.randint(10, 21) + rng.randint(-5, 5), rng.randint(-5, 5), rng.randint(-5, 5)]]
+    pids, elen, types = [-1], [0], [1]
+    for j in range(K):
+        L = S - rng.randint(0, min(999, S // 2))
+        q = list(pos[-1]); q[j % 3] += (1 if (j // 3) % 2 == 0 else -1) * L
+        pos.append(q); pids.append(j); elen.append(L); types.append(2)
+    b0 = base["xyz"][0]
+    for i in range(1, base["n"]):
+        pos.append([int(pos[K][c] + m * (base["xyz"][i][c] - b0[c])) for c in range(3)])
+        pids.append(K + base["pids"][i]); elen.append(m * base["elen"][i]); types.append(base["types"][i])
+    for _ in range(rng.randint(1, 2)):            # twigs of the same make at the root
+        v = 0
+        for _ in range(rng.randint(1, 3)):
+            L = m * rng.randint(1, 4)
+            q = list(pos[v]); q[rng.randrange(3)] += rng.choice([-1, 1]) * L
+            pos.append(q); pids.append(v); elen.append(L); types.append(3); v = len(pids) - 1
+    nn = len(pids)
+    assert max(abs(c) for q in pos for c in q) < 2 ** 24
+    return {"n": nn, "pids": pids, "types": types, "xyz": [[c * u for c in q] for q in pos], "r": [(i + 1) / 8 for i in range(nn)],
+            "elen": [L * u for L in elen], "scale": 2 ** (f + 1)}, K
+
+
+def tip_branches(t):
+    """(furcation, first node, length) of every terminal branch"""
+    kids = kids_of(t["pids"])
+    out = []
+    for fu, cs in kids.items():
+        if fu < 0 or len(cs) < 2:
+            continue
+        for c in cs:
+            L, x = t["elen"][c], c
+            while len(kids.get(x, [])) == 1:
+                x = kids[x][0]; L += t["elen"][x]
+            if not kids.get(x):
+                out.append((fu, c, L))
+    return out
+
+
 def build_input(case):
     """the Tree a case describes, built on the real library: the (possibly derived) tree with the position tags r / tag / level and the extra
     columns of the case → (tree, what the oracle must know about a derivation, extra column specs, a copy of every column before the call)"""
@@ -433,6 +481,29 @@ class Ops(Suite):
                 else:
                     case["pkind"] = INT_KINDS[(k + j) % len(INT_KINDS)]
                 out.append(case)
+        # CutShortTipBranch on terminal branches FAR from the root in path length (a long projection fibre / coordinates in small units): the
+        # branching part hangs at path length ~2^e units behind a winding fibre, e round-robin from "tens of units" to "beyond the float32
+        # mantissa"; all lengths are exact multiples of the unit, the thresholds sit half a unit beside the length of an actual terminal
+        # branch (just short enough / just too long). (Own block, after everything else.)
+        k = 0
+        exps = [27, 21, 29, 25, 28, 12, 26, 24] if not big else [27, 21, 29, 25, 28, 12, 26, 24, 29, 17, 28, 23, 27, 8, 26, 29]
+        for e in exps:
+            shape = gen.pick_shape(rng, k + 1); k += 1
+            f = rng.randint(0, 5)
+            t, K = far_twig_tree(rng, e, f, rng.choice([6, 9, 14, 20]), shape)
+            u = 2.0 ** -f
+            brs = tip_branches(t)
+            far = [b for b in brs if b[0] >= K] or brs
+            thres = []
+            for b in rng.sample(far, min(2, len(far))):
+                thres += [b[2] - u / 2, b[2] + u / 2]
+            thres.append((rng.randint(0, 12) + 0.5) * u)
+            for j, th in enumerate(thres[:1] + thres[-2:] if not big else thres):
+                pk = FLOAT_KINDS[(k + j) % len(FLOAT_KINDS)]
+                if float(np.float32(th)) != th:      # the threshold handed over is the threshold meant: float32 only where it holds it exactly
+                    pk = "float64"
+                out.append({"class": f"{shape}/cuttip/far-twig-path2^{e}u", "tree": t, "op": {"op": "cuttip", "thre": th, "cb": (k + j) % 2 == 1},
+                            "pkind": pk, "mapkind": None})
         return out
 
     @staticmethod
@@ -554,7 +625,7 @@ class Ops(Suite):
         else:
             # every other case hands `__init__` a user callback that records the branches it is called with (compared with the callback state of
             # the GENERATED `__call__`, op gcuttip)
-            tip_seen = [] if (op["thre"] + t.number_of_nodes()) % 2 == 1 else None
+            tip_seen = [] if op.get("cb", (op["thre"] + t.number_of_nodes()) % 2 == 1) else None
             tip_kw = {} if tip_seen is None else {"callback": lambda br: tip_seen.append([int(i) for i in br.idx])}
             y = CutShortTipBranch(thre=as_param(op["thre"], pk), **tip_kw)(t)
         if k in ("tosub", "subtree"):
@@ -626,7 +697,9 @@ class Ops(Suite):
         elif k == "cutorder":
             a += f" m={op['m']}"
         else:
-            a += f" elen={gen.ints(t['elen'])} thre={op['thre']}"
+            # (lengths in multiples of half the tree's length unit: the model compares exact numbers)
+            sc = t.get("scale", 1)
+            a += f" elen={gen.ints([round(x * sc) for x in t['elen']])} thre={round(op['thre'] * sc) if sc != 1 else op['thre']}"
         want = f"{gen.ints(res['pid']).replace('_', '')} / {gen.ints(self._mapping(case, res)).replace('_', '')}"
         out = [(f"{k} {a}", want)]
         # the same operation through the definitions GENERATED on this run from get_subtree_impl / propagate_removal / to_sub_topology
